@@ -5,6 +5,7 @@ use crate::core::Check;
 pub mod cache;
 pub mod config;
 pub mod delta;
+pub mod hist;
 pub mod history;
 pub mod jsondelta;
 pub mod rtrsrv;
@@ -18,6 +19,9 @@ pub fn all() -> Vec<&'static Check> {
     vec![
         &worlds::C01,
         &worlds::C02,
+        &hist::C03,
+        &hist::C04,
+        &hist::C05,
         &worlds2::C07,
         &worlds2::C08,
         &worlds2::C09,
